@@ -3,10 +3,11 @@ use std::sync::Mutex;
 
 use midnight_proofs::utils::arithmetic::parallelize;
 use mzkh::Ctx;
+use num_bigint::BigUint;
+use num_traits::{One, Zero};
 
-fn pool(t: usize) -> rayon::ThreadPool {
-    rayon::ThreadPoolBuilder::new().num_threads(t).build().unwrap()
-}
+mod msm;
+use msm::{gen_case, pool, run_bls_specific, run_bn_specific, run_booth, run_generic, BasePool, Entry, Mode, POOLS};
 
 /// `parallelize`: the (offset, length) pairs the workers receive, and whether every index was
 /// visited exactly once with the right offset (the oracle: index-wise map equals the serial map).
@@ -16,7 +17,7 @@ fn run_parallelize(ctx: &mut Ctx) {
     } else {
         (0..=300).chain([511, 512, 513, 1000, 4095, 4096, 4097, 65537]).collect()
     };
-    for t in [1usize, 2, 3, 5, 8, 16] {
+    for t in POOLS {
         let p = pool(t);
         for &len in &lens {
             let seen = Mutex::new(Vec::new());
@@ -44,8 +45,211 @@ fn run_parallelize(ctx: &mut Ctx) {
     }
 }
 
+const SPECIAL_MODES: [Mode; 8] = [
+    Mode::Random,
+    Mode::SameBase,
+    Mode::OppositePairs,
+    Mode::AllIdentity,
+    Mode::ZeroScalars,
+    Mode::MaxScalars,
+    Mode::ShortScalars(2),
+    Mode::TopBits,
+];
+
+fn run_msm(ctx: &mut Ctx) {
+    use midnight_curves::{bn256, G1Affine};
+    let quick = ctx.quick();
+    let mut rng = ctx.rng("msm");
+    let bls: BasePool<G1Affine> = BasePool::new(&mut rng, if quick { 3000 } else { 12000 });
+    let bn: BasePool<bn256::G1Affine> = BasePool::new(&mut rng, if quick { 1500 } else { 6000 });
+    // generators as the implementation sees them
+    ctx.case("gen", true, "gen bls", &format!("{} on", msm::affine_str::<G1Affine>(&<G1Affine as group::prime::PrimeCurveAffine>::generator().into())));
+    ctx.case("gen", true, "gen bn", &format!("{} on", msm::affine_str::<bn256::G1Affine>(&<bn256::G1Affine as group::prime::PrimeCurveAffine>::generator().into())));
+
+    let boundary: Vec<usize> = vec![1, 2, 3, 4, 5, 31, 32, 33, 54, 55, 70];
+    let sampled: Vec<usize> = if quick {
+        vec![148, 149, 403, 404, 1096, 1097, 2980, 2981, 4096]
+    } else {
+        vec![71, 100, 147, 148, 149, 150, 255, 256, 402, 403, 404, 405, 767, 768, 769, 1000, 1095, 1096, 1097, 1098, 2048,
+             2979, 2980, 2981, 2982, 4095, 4096]
+    };
+    let reps = if quick { 1 } else { 3 };
+
+    // ---- msm_serial (BLS): every length 0..70, accumulator zero and non-zero
+    for rep in 0..reps {
+        for len in 0..=70usize {
+            let case = gen_case(&mut rng, &bls, len, Mode::Mixed);
+            run_generic(ctx, "bls", &case, Entry::Serial(BigUint::zero()), Mode::Mixed);
+            let case = gen_case(&mut rng, &bls, len, Mode::Mixed);
+            run_generic(ctx, "bls", &case, Entry::Serial(BigUint::from(1u32 + rep as u32 * 7)), Mode::Mixed);
+        }
+    }
+    for &len in boundary.iter().chain(if quick { [].iter() } else { sampled.iter() }) {
+        for mode in SPECIAL_MODES.iter().chain([Mode::ShortScalars(1), Mode::ShortScalars(31)].iter()) {
+            let case = gen_case(&mut rng, &bls, len, *mode);
+            run_generic(ctx, "bls", &case, Entry::Serial(BigUint::zero()), *mode);
+            let case = gen_case(&mut rng, &bls, len, *mode);
+            run_generic(ctx, "bls", &case, Entry::Serial(BigUint::one()), *mode);
+        }
+    }
+    for &len in &sampled {
+        let case = gen_case(&mut rng, &bls, len, Mode::Mixed);
+        run_generic(ctx, "bls", &case, Entry::Serial(BigUint::from(3u32)), Mode::Mixed);
+    }
+
+    // ---- msm_parallel (BLS): every length 0..70 on every pool
+    for t in POOLS {
+        for len in 0..=70usize {
+            let case = gen_case(&mut rng, &bls, len, Mode::Mixed);
+            run_generic(ctx, "bls", &case, Entry::Parallel(t), Mode::Mixed);
+        }
+        for &len in &sampled {
+            if quick && !(t == 3 || t == 16) {
+                continue;
+            }
+            let case = gen_case(&mut rng, &bls, len, Mode::Mixed);
+            run_generic(ctx, "bls", &case, Entry::Parallel(t), Mode::Mixed);
+        }
+        for &len in &boundary {
+            for mode in SPECIAL_MODES.iter() {
+                if quick && (len + t) % 3 != 0 {
+                    continue;
+                }
+                let case = gen_case(&mut rng, &bls, len, *mode);
+                run_generic(ctx, "bls", &case, Entry::Parallel(t), *mode);
+            }
+        }
+    }
+
+    // ---- msm_best (BLS): small lengths delegate to msm_parallel; the batch-affine path needs
+    // ceil(ln len) >= 10, i.e. len >= 8104
+    for t in POOLS {
+        for len in 0..=70usize {
+            if quick && (len + t) % 2 != 0 {
+                continue;
+            }
+            let case = gen_case(&mut rng, &bls, len, Mode::Mixed);
+            run_generic(ctx, "bls", &case, Entry::Best(t), Mode::Mixed);
+        }
+    }
+    for &len in &sampled {
+        for t in [2usize, 16] {
+            let case = gen_case(&mut rng, &bls, len, Mode::Mixed);
+            run_generic(ctx, "bls", &case, Entry::Best(t), Mode::Mixed);
+        }
+    }
+    let big: Vec<(usize, usize, Mode)> = if quick {
+        vec![(8103, 5, Mode::Mixed), (8104, 1, Mode::NoIdentity), (8104, 2, Mode::Mixed), (8104, 3, Mode::AllIdentity), (8104, 16, Mode::SameBase), (8200, 3, Mode::OppositePairs), (8500, 8, Mode::Random)]
+    } else {
+        let mut v = vec![];
+        for (i, len) in [8103usize, 8104, 8105, 8192, 9000, 12000, 16384, 22026, 22027].iter().enumerate() {
+            for (j, mode) in [Mode::Mixed, Mode::SameBase, Mode::OppositePairs, Mode::Random, Mode::NoIdentity, Mode::AllIdentity, Mode::MaxScalars, Mode::TopBits, Mode::ShortScalars(2), Mode::ZeroScalars].iter().enumerate() {
+                if *len > 12000 && j > 3 {
+                    continue;
+                }
+                v.push((*len, POOLS[(i + j) % 6], *mode));
+            }
+        }
+        v
+    };
+    for (len, t, mode) in big {
+        let case = gen_case(&mut rng, &bls, len, mode);
+        run_generic(ctx, "bls", &case, Entry::Best(t), mode);
+    }
+
+    // ---- blst Pippenger: multi_exp and msm_specific (zero filter)
+    for len in (1..=70usize).chain(sampled.iter().cloned()) {
+        let case = gen_case(&mut rng, &bls, len, Mode::Mixed);
+        run_bls_specific(ctx, &case, Mode::Mixed, "multiexp", 1);
+    }
+    for len in (0..=70usize).chain(sampled.iter().cloned()) {
+        let case = gen_case(&mut rng, &bls, len, Mode::Mixed);
+        run_bls_specific(ctx, &case, Mode::Mixed, "specific-blst", POOLS[len % 6]);
+    }
+    for &len in &boundary {
+        for mode in SPECIAL_MODES.iter() {
+            let case = gen_case(&mut rng, &bls, len, *mode);
+            run_bls_specific(ctx, &case, *mode, "multiexp", 1);
+            let case = gen_case(&mut rng, &bls, len, *mode);
+            run_bls_specific(ctx, &case, *mode, "specific-blst", 4);
+        }
+    }
+
+    // ---- pure-Rust curve (bn256): the same generic code on another `CurveAffine`
+    for len in 0..=(if quick { 40usize } else { 70 }) {
+        let case = gen_case(&mut rng, &bn, len, Mode::Mixed);
+        run_generic(ctx, "bn", &case, Entry::Serial(BigUint::from(len as u32 % 3)), Mode::Mixed);
+        let case = gen_case(&mut rng, &bn, len, Mode::Mixed);
+        run_generic(ctx, "bn", &case, Entry::Best(POOLS[len % 6]), Mode::Mixed);
+        let case = gen_case(&mut rng, &bn, len, Mode::Mixed);
+        run_bn_specific(ctx, &case, Mode::Mixed, POOLS[(len + 1) % 6]);
+    }
+    for &len in &boundary {
+        for mode in SPECIAL_MODES.iter() {
+            let case = gen_case(&mut rng, &bn, len, *mode);
+            run_generic(ctx, "bn", &case, Entry::Parallel(POOLS[len % 6]), *mode);
+            let case = gen_case(&mut rng, &bn, len, *mode);
+            run_bn_specific(ctx, &case, *mode, 2);
+        }
+    }
+    let bn_big: Vec<(usize, usize, Mode)> = if quick {
+        vec![(8104, 3, Mode::Mixed), (8110, 16, Mode::OppositePairs)]
+    } else {
+        vec![(8103, 2, Mode::NoIdentity), (8104, 1, Mode::Mixed), (8104, 4, Mode::AllIdentity), (8104, 16, Mode::SameBase), (8105, 5, Mode::OppositePairs),
+             (9000, 8, Mode::Random), (8200, 3, Mode::MaxScalars), (8300, 2, Mode::TopBits)]
+    };
+    for (len, t, mode) in bn_big {
+        let case = gen_case(&mut rng, &bn, len, mode);
+        run_generic(ctx, "bn", &case, Entry::Best(t), mode);
+        let case = gen_case(&mut rng, &bn, len, mode);
+        run_bn_specific(ctx, &case, mode, t);
+    }
+}
+
+/// Inputs on which the anchored code is known / suspected to leave its documented domain.
+fn run_edge_probes(ctx: &mut Ctx) {
+    use ff::Field;
+    use group::{prime::PrimeCurveAffine, Group};
+    use midnight_curves::{msm::msm_best, Fq, G1Affine, G1Projective};
+    // (1) regression: identity bases in the batch-affine path of msm_best (len >= 8104) used to
+    // panic (fixed in /repo by "fix: msm_best skips identity bases in the batch-affine path")
+    let mut rng = ctx.rng("edge");
+    let bls: BasePool<G1Affine> = BasePool::new(&mut rng, 64);
+    for (what, mode) in [("all-identity", Mode::AllIdentity), ("some-identity", Mode::Mixed)] {
+        let case = gen_case(&mut rng, &bls, 8104, mode);
+        let mut k = Fq::ZERO;
+        for (b, s) in case.logs.iter().zip(case.scalars.iter()) {
+            k += mzkh::fe_from_big::<Fq>(b) * s;
+        }
+        let exp = G1Projective::generator() * k;
+        let res = mzkh::catch(|| pool(4).install(|| msm_best(&case.scalars, &case.bases)));
+        ctx.count(&format!("probe:msm_best-identity-base:{what}"));
+        if !matches!(&res, Ok(p) if *p == exp) {
+            ctx.oracle_fail(
+                "msm_best:identity-base:batch-affine",
+                "msm_best with >= 8104 bases (batch-affine path) fails when a base is the identity",
+                serde_json::json!({"len": 8104, "bases": what,
+                    "minimal": "msm_best(&vec![Fq::ONE; 8104], &vec![G1Affine::identity(); 8104])",
+                    "result": match &res { Ok(_) => "wrong point".to_string(), Err(m) => format!("panic: {m}") }}),
+            );
+        }
+    }
+    // (2) blst wrapper on the empty input (msm_specific guards this case itself)
+    let res = mzkh::catch(|| G1Projective::multi_exp(&[], &[]));
+    let ans = match &res {
+        Ok(p) => msm::affine_str::<G1Affine>(p),
+        Err(_) => "panic".to_string(),
+    };
+    ctx.count(&format!("probe:multi_exp-empty:{}", if res.is_ok() { "value" } else { "panic" }));
+    ctx.case("msm-bls-multiexp-empty", false, "msm bls multiexp-empty 1 0x0 32 -", &ans);
+    let _ = G1Affine::identity();
+}
+
 fn main() {
     let mut ctx = Ctx::from_args("C12");
     run_parallelize(&mut ctx);
+    run_booth(&mut ctx);
+    run_msm(&mut ctx);
+    run_edge_probes(&mut ctx);
     ctx.finish();
 }
